@@ -1,1 +1,2 @@
-pub fn hello() {}
+pub mod simkit;
+pub mod props;
